@@ -182,9 +182,29 @@ def r12_3(ctx):
     ctx.check(ok, "clone substitutes every placeholder of the template", detail="substitution source", expected="subst_from = list(self._placeholders.keys())", found=ast.unparse(sf[0].value) if sf else None, fi=f)
     reg = [st for st in walk_no_nested(f.node) if isinstance(st, ast.Assign) and isinstance(st.targets[0], ast.Subscript) and ast.unparse(st.targets[0].value) == "ret._placeholders"]
     ew = elementwise_text(sc, reg[0]) if len(reg) == 1 else None
-    ok = ew is not None and ew[0] == "ret._placeholders[subst_to[@]] = self._placeholders[subst_from[@]]" and set(ew[1]) & {"subst_from", "subst_to"}
-    ctx.check(ok, "clone registers every renewed placeholder with the template's definition", detail="placeholder registration", expected="for old,new in zip(subst_from, subst_to): ret._placeholders[new] = self._placeholders[old]", found="", fi=f)
-    subs = [c for c in walk_no_nested(f.node) if is_call_to(c, "substitute") and len(c.args) == 3]
+    n12 = ctx.norm(f)
+    ok = ew is not None and ew[0].startswith("ret._placeholders[subst_to[@]] = ") and set(ew[1]) & {"subst_from", "subst_to"}
+    ctx.check(ok, "clone registers every renewed placeholder with the template's definition", detail="placeholder registration", expected="for old,new in zip(subst_from, subst_to): ret._placeholders[new] = <definition of old>", found=ew[0] if ew else "", fi=f)
+    if ok:
+        # the definition is (species, expression, args, kwargs): the expression may contain the template's own t / T / t0 and other
+        # placeholders (sum((x - at_tf(x))**2)); they must be mapped to the clone's, like constraints and objective are
+        v = reg[0].value
+        leaf = v
+        if isinstance(leaf, ast.Name):
+            leaf = sc.reaching(leaf.id, leaf) or leaf
+        substituted = False
+        for x in ast.walk(leaf) if isinstance(leaf, ast.AST) else []:
+            if is_call_to(x, "substitute") and len(x.args) == 3 and [ast.unparse(a) for a in x.args[1:]] == ["subst_from", "subst_to"]:
+                substituted = True
+        # the expression may also be renewed in a statement before the registration, inside the same loop
+        lp = sc.enclosing_loops(reg[0])[-1][2]
+        for x in ast.walk(lp):
+            if is_call_to(x, "substitute") and len(x.args) == 3 and [ast.unparse(a) for a in x.args[1:]] == ["subst_from", "subst_to"]:
+                substituted = True
+        ctx.check(substituted, "clone renews the placeholders nested inside a placeholder's own expression", detail="a clone's sum/integral/at_tf expression keeps referring to the template's placeholders (its at_tf(x), t, T): stages interfere silently",
+                  expected="expr = substitute([expr], subst_from, subst_to)[0] before ret._placeholders[new] = (species, expr, args, kwargs)", found=ast.unparse(reg[0]), fi=f, node=reg[0],
+                  sample={"registration": ast.unparse(reg[0])})
+    subs = [c for c in walk_no_nested(f.node) if is_call_to(c, "substitute") and len(c.args) == 3 and not sc.enclosing_loops(c)]
     ok = len(subs) == 1 and [ast.unparse(a) for a in subs[0].args] == ["orig", "subst_from", "subst_to"]
     ctx.check(ok, "clone substitutes in one pass over constraints + objective + guess keys", detail="substitution call", expected="res = substitute(orig, subst_from, subst_to)", found="; ".join(ast.unparse(c) for c in subs), fi=f)
     # packing / unpacking offsets
